@@ -91,6 +91,34 @@ class C02(Prop):
                 cur = X.ref_set(cur, sub, v)
             out.append({"stream": "ops", "tag": "deep:%d" % depth, "input": {"tree": t, "mode": rng.choice(["convert", "wrap", "json"]),
                                                                             "ops": ops, "paths": paths}})
+        # raw data with tuples where the lists are: writes to dictionary entries that lie below tuple elements
+        for _ in range(60 if tier == "quick" else 1500):
+            t = X.gen_tree(rng, rng.choice([3, 4]), root="dict")
+            cur = copy.deepcopy(t)
+            ops, paths = [], []
+            for _ in range(rng.randint(1, 3)):
+                cands = [(p_, v_) for p_, v_ in X.node_paths(cur) if isinstance(p_[-1], str) and any(isinstance(st, int) for st in p_)]
+                if not cands:
+                    break
+                path, _v = rng.choice(cands)
+                v = rng.choice([1, "x", None, 2.5, True])
+                ops.append(["set", X.render(cur, path, rng), v]); paths.append(list(path))
+                cur = X.ref_set(cur, path, v)
+            if ops:
+                out.append({"stream": "ops", "tag": "tuples", "input": {"tree": t, "mode": "tuples", "ops": ops, "paths": paths}})
+        # a nested key that begins with '?', next to its twin without it, in a tree built from JSON text or wrapped raw data:
+        # only a '?' in front of the WHOLE path marks an optional assignment; inside a path it is part of the name.  (Reading
+        # such a key back through its xpath, and convert_recursively on it, are the recorded finding C01/qmark-key.)
+        for _ in range(30 if tier == "quick" else 600):
+            k = rng.choice(["?debug", "?x", "?"])
+            inner = {k: rng.choice([0, "old"]), k[1:] or "q": rng.choice([1, "twin"]), "z": 2}
+            if rng.random() < 0.5:
+                inner = dict(reversed(list(inner.items())))
+            t = {"request": inner, "a": X.gen_tree(rng, 2)}
+            v = gen_value(rng) if rng.random() < 0.6 else rng.choice([None, "", 0])
+            out.append({"stream": "ops", "tag": "qmark-key", "input": {"tree": t, "mode": rng.choice(["json", "json", "wrap"]),
+                                                                       "ops": [["set", rng.choice(["request/%s", "/request/%s", "//request/%s"]) % k, v]],
+                                                                       "paths": [["request", k]]}})
         # keys with leading / trailing blanks, addressed as plain keys on the dictionary that holds them (a plain key is
         # taken as it is; only the steps of a path are trimmed)
         for _ in range(50 if tier == "quick" else 1200):
@@ -155,6 +183,8 @@ class C02(Prop):
                     fail = "after d[%r] = %r the tree is %r, the plain model that applied the same writes is %r" % (op[1], op[2], X.plain(obj), ref)
                 elif X.raw_get(obj, path) is not v:
                     fail = "after d[%r] = v the addressed slot does not hold v" % (op[1],)
+                elif any(isinstance(st_, str) and st_.startswith("?") for st_ in path):
+                    pass        # reading a '?'-key back through its xpath is the recorded finding C01/qmark-key
                 else:
                     try:
                         if obj[op[1]] is not v:
